@@ -27,6 +27,7 @@ func init() {
 			"Verify must never see a receiver that is already visible, and the client-boundary history (report/read with logical call/return stamps) is checked for linearizability with porcupine against the sequential model. " +
 			"Sequential cases also contain blocking reports whose context ends exactly when the monitor answers them (the reporter lets the monitor finish before its context is cancelled, or the context is cancelled at the schedule point just before the reply): a rejected update is never answered with nil, view and serial follow the model. " +
 			"Every 25th case runs stacks of non-watching sources only (no monitor): Config must fail on an invalid initial stack unless Skip/Delay, and with Delay EnableVerification must fail exactly when the installed config's Verify (content, or a refusing impure Verify) fails. " +
+			"Enable-after-exit episodes: delayed verification with watching sources, the monitor gone (every watcher Done, or context cancelled) before EnableVerification is called with a short context: no success may be reported for a config that fails Verify. " +
 			"All four Skip x Delay combinations; initial-invalid stacks must make Config fail. distinct_nontrivial = distinct (options, op-kind sequence, outcome sequence) signatures of histories containing at least one rejected and one installed update.",
 		Assumptions: []string{
 			"the fake sources always produce values of the type dials asked for (except the deliberately ill-typed *string-for-*int layer)",
@@ -35,7 +36,7 @@ func init() {
 		},
 		MinDistinct: map[string]int{"quick": 1000, "thorough": 50000},
 		MinCounters: map[string]map[string]int64{
-			"quick":    {"configs_validity_checked": 2000, "rejections_checked_exactly": 300, "linearizable_histories": 80, "verify_calls_observed": 2000, "rejections_cancelled_at_the_answer": 150, "no_watcher_enable_on_invalid_stack": 40},
+			"quick":    {"configs_validity_checked": 2000, "rejections_checked_exactly": 300, "linearizable_histories": 80, "verify_calls_observed": 2000, "rejections_cancelled_at_the_answer": 150, "no_watcher_enable_on_invalid_stack": 40, "enable_calls_after_monitor_exit_on_invalid_config": 40},
 			"thorough": {"configs_validity_checked": 1000000, "rejections_checked_exactly": 100000, "linearizable_histories": 40000, "rejections_cancelled_at_the_answer": 5000, "no_watcher_enable_on_invalid_stack": 1500},
 		},
 		Plan: func(tier string) fw.Plan {
@@ -60,6 +61,10 @@ func runC04(w *fw.Worker) {
 		}
 		if i%25 == 12 {
 			c04NoWatcher(w, i, r)
+			return
+		}
+		if i%25 == 19 {
+			c04EnableAfterMonitorExit(w, i, r)
 			return
 		}
 		if r.Chance(45) {
@@ -953,4 +958,57 @@ func c04NoWatcher(w *fw.Worker, i int, r *fw.Rand) {
 
 func c04VerifyLogCount(w *fw.Worker, e *conc.Env) {
 	w.Count("verify_calls_observed", int64(len(e.S.VerifyLog())))
+}
+
+// c04EnableAfterMonitorExit: delayed verification, watching sources, an initial stack that may fail Verify; then the
+// monitor goes away (every watcher calls Done, or the Config context is cancelled) and only then is
+// EnableVerification called, with a short context of its own. Nobody is left to verify, so the call cannot report
+// success for a config that fails Verify: a nil error would declare verification active while the visible config
+// never passed it. (What it returns otherwise - the Verify error or its context's error - is not judged here.)
+func c04EnableAfterMonitorExit(w *fw.Worker, i int, r *fw.Rand) {
+	for rep := 0; rep < 3; rep++ {
+		o := conc.Opts{Delay: true, Suppress: r.Chance(30), NSrc: r.Range(1, 3)}
+		e, err := conc.StartWith(context.Background(), r.U64(), o, c04InitLayers(r, 60), nil)
+		if err != nil {
+			w.Violation(i, "config-failed-with-verification-delayed", err.Error(), nil)
+			continue
+		}
+		initFP := c04InitialFP(e)
+		valid := conc.ValidFP(initFP)
+		how := []string{"every-watcher-done", "context-cancelled"}[r.Intn(2)]
+		desc := map[string]any{"mode": "enable-after-monitor-exit", "opts": fmt.Sprintf("%+v", o), "initial_stack": fmt.Sprintf("%+v", initFP), "shutdown": how}
+		w.BeginDesc(i, fmt.Sprintf("%v", desc))
+		if how == "every-watcher-done" {
+			for _, ws := range e.Srcs {
+				if ws != nil && ws.WA() != nil {
+					dctx, dcancel := context.WithTimeout(context.Background(), 20*time.Second)
+					ws.WA().Done(dctx)
+					dcancel()
+				}
+			}
+		} else {
+			e.S.Cancel()
+		}
+		select {
+		case <-dials.VerifMonitorDone(e.D):
+		case <-time.After(20 * time.Second):
+			w.Inconclusive(i, "monitor did not exit within 20s ("+how+")")
+			e.Stop()
+			continue
+		}
+		ectx, ecancel := context.WithTimeout(context.Background(), 40*time.Millisecond)
+		cfg, _, eerr := e.D.EnableVerification(ectx)
+		ecancel()
+		w.Count("enable_calls_after_monitor_exit", 1)
+		if !valid {
+			w.Count("enable_calls_after_monitor_exit_on_invalid_config", 1)
+			if eerr == nil {
+				w.Violation(i, "enable-succeeded-on-invalid-config:after-monitor-exit", fmt.Sprintf("EnableVerification, called after the monitor had exited (%s), returned (%+v, nil) although the installed config %+v fails Verify", how, conc.FPOf(cfg), initFP), desc)
+			}
+		} else if eerr == nil && cfg != nil && !conc.Valid(cfg) {
+			w.Violation(i, "unverified-config-visible:EnableVerification", fmt.Sprintf("EnableVerification after monitor exit returned a config that fails Verify: %+v", conc.FPOf(cfg)), desc)
+		}
+		w.Distinct(fmt.Sprintf("enable-after-exit|%s|%v|%d", how, valid, o.NSrc))
+		e.Stop()
+	}
 }
